@@ -43,12 +43,12 @@ MC = "optimism.contact.MortarContact"
 def run(ctx):
     for m in (SF, FR, MC):
         ctx.need_module(m)
-    min_base(ctx)
-    max_abs(ctx)
-    zmax(ctx)
-    smooth_linear(ctx)
-    friction(ctx)
-    users(ctx)
+    ctx.guard(min_base, ctx)
+    ctx.guard(max_abs, ctx)
+    ctx.guard(zmax, ctx)
+    ctx.guard(smooth_linear, ctx)
+    ctx.guard(friction, ctx)
+    ctx.guard(users, ctx)
     ctx.trust("exact rational arithmetic (fractions.Fraction); normal forms of multivariate rational functions; d sqrt(E) = dE/(2 sqrt E)")
     ctx.assume("eps > safeTol (= 1e-14), sReg > 0, 0 < l < 1/2, real arithmetic (no rounding)")
 
